@@ -723,6 +723,14 @@ def check_topo(ctx):
                               at=caller.where(sub))
                 continue
             sorted_graph = dotted(receiver(sorts[0]))
+            # the sorted list re-ordered in place afterwards
+            for node in calls_in(caller.node):
+                if call_name(node) in ('sort', 'reverse') and dotted(
+                        receiver(node)) == txt(tasks_arg):
+                    others.append(node)
+                if call_name(node) == 'shuffle' and node.args and txt(
+                        node.args[0]) == txt(tasks_arg):
+                    others.append(node)
             ctx.decide('TOPO', caller,
                        f'tasks examined in the order of '
                        f'{sorted_graph}.topological_sort(); `deps` come from '
@@ -732,7 +740,10 @@ def check_topo(ctx):
                               'ones): on a re-run a DONE task can be '
                               'examined, and dropped as up to date, before '
                               'the dependency that the same pass resets'
-                       if sorted_graph != graph_arg else None)
+                       if sorted_graph != graph_arg else
+                       f'the sorted list is re-ordered / re-bound '
+                       f'afterwards ({txt(others[0])[:60]}): the same '
+                       f'hazard' if others else None)
     ctx.floor('TOPO-call', found, 1, f'call of {func.name}')
 
 
@@ -922,3 +933,87 @@ def check_decision_inputs(ctx):
                    f'computed from the environment (`{env_expr}`) outside '
                    f'env.atomically: stale when a worker publishes between '
                    f'this read and the decision')
+
+
+# -------------------------------------------------------- STATUS-WRITERS ---
+
+def _callee_closure(program, roots, depth=3):
+    seen = {id(f): f for f in roots}
+    todo = [(f, 0) for f in roots]
+    while todo:
+        func, lvl = todo.pop()
+        if lvl >= depth:
+            continue
+        for call in calls_in(func.node):
+            cands, _ = program.resolve_call(func, call)
+            for cand in cands:
+                if cand.module.name.startswith(BACKENDS) and \
+                        id(cand) not in seen:
+                    seen[id(cand)] = cand
+                    todo.append((cand, lvl + 1))
+    return seen
+
+
+def check_status_writers(ctx):
+    '''In the backends the status of a task is written only (a) by the
+    decision function and what it calls - interpreted row by row by REL;
+    (b) by the master loop in front of the decision call - rows of the same
+    table; (c) by the worker function around Task.do - WRK.  A status
+    written anywhere else (a time-out branch, a clean-up helper) is a
+    transition that no table describes: tasks skipped although no hard
+    dependency failed, released although a dependency still runs.'''
+    from . import sched_worker
+    program = ctx.program
+    sites = find_decision_site(program)
+    ctx.floor('STATUS-WRITERS', len(sites), 1, 'decision call site')
+    deciders = _callee_closure(program, [s[2] for s in sites])
+    workers = sched_worker.find_workers(program)
+    ctx.floor('STATUS-WRITERS-worker', len(workers), 1, 'worker function')
+    working = _callee_closure(program, [w.func for w in workers])
+    prelude = set()
+    for func, call, _dec, _bound, _env, _atomic in sites:
+        parents = enclosing_chain(func.node)
+        loop = lexically_inside(parents, call, lambda n: isinstance(
+            n, (ast.For, ast.While)))
+        if loop is None:
+            continue
+        cur = call
+        while cur is not None and parents.get(id(cur)) is not loop:
+            cur = parents.get(id(cur))
+        if cur is None or cur not in loop.body:
+            continue
+        for stmt in loop.body[:loop.body.index(cur)]:
+            prelude |= {id(n) for n in ast.walk(stmt)}
+    n_sites = 0
+    for func in program.all_functions():
+        if not func.module.name.startswith(BACKENDS):
+            continue
+        for call in calls_in(func.node):
+            cname = call_name(call) or ''
+            if not ((cname.startswith('set_') and cname[4:].upper() in
+                     LETTER) or cname == 'set_status'):
+                continue
+            if receiver(call) is None:
+                continue
+            n_sites += 1
+            if id(func) in deciders:
+                role = 'decision (REL table)'
+            elif id(func) in working:
+                role = 'worker (WRK)'
+            elif id(call) in prelude:
+                role = 'master loop before the decision (REL prelude rows)'
+            else:
+                ctx.violated(
+                    'STATUS-WRITERS', func,
+                    f'{txt(call)[:50]} in {func.name}: a status written '
+                    f'outside the decision function, the master prelude and '
+                    f'the worker', at=func.where(call),
+                    detail='this transition is in no decision table: '
+                           'nothing shows that a task is SKIPPED only when '
+                           'a hard dependency failed, or released only when '
+                           'its dependencies are settled')
+                continue
+            ctx.holds('STATUS-WRITERS', func, f'{txt(call)[:50]}: {role}',
+                      at=func.where(call), nontrivial=False)
+    ctx.floor('STATUS-WRITERS-sites', n_sites, 4, 'status write sites in the '
+              'backends')
